@@ -507,6 +507,8 @@ impl Database {
         data.len()
     }
     pub fn connections_count(&self) -> usize {
+        #[cfg(feature = "verif_hooks")]
+        crate::verif::yield_point("connections_count:connections:read");
         let connections = self
             .connections
             .read()
@@ -543,6 +545,8 @@ impl Database {
     }
 
     pub fn dec_connections(&self) {
+        #[cfg(feature = "verif_hooks")]
+        crate::verif::yield_point("dec_connections:connections:write");
         let mut connections = self
             .connections
             .write()
@@ -551,6 +555,8 @@ impl Database {
     }
 
     pub fn inc_connections(&self) {
+        #[cfg(feature = "verif_hooks")]
+        crate::verif::yield_point("inc_connections:connections:write");
         let mut connections = self
             .connections
             .write()
@@ -561,6 +567,8 @@ impl Database {
     pub fn inc_value(&self, key: String, inc: i32) -> Response {
         // This will reduce the lock time of map. It won't wait the notifyt time, we don't need to
         // wait for the update_watchers to release the key
+        #[cfg(feature = "verif_hooks")]
+        crate::verif::yield_point("inc_value:map:write");
         let (value, version) = {
             let mut db = self.map.write().unwrap();
             match i32::from_str_radix(
@@ -588,6 +596,8 @@ impl Database {
 
     pub fn list_keys(&self, pattern: &String, list_system_keys: bool) -> Vec<String> {
         let query_function = get_function_by_pattern(&pattern);
+        #[cfg(feature = "verif_hooks")]
+        crate::verif::yield_point("list_keys:map:read");
         let mut keys: Vec<String> = {
             self.map
                 .read()
@@ -618,6 +628,8 @@ impl Database {
     }
 
     fn notify_watchers(&self, key: String, value: String, version: i32) {
+        #[cfg(feature = "verif_hooks")]
+        crate::verif::yield_point("notify_watchers:watchers:read");
         let watchers = self.watchers.map.read().unwrap();
         match watchers.get(&key) {
             Some(senders) => {
@@ -658,6 +670,8 @@ impl Database {
                     if let Some(value) = self.get_value(key.clone()) {
                         // If deleted before the key is in disk remove direct from memory
                         if value.state == ValueStatus::New {
+                            #[cfg(feature = "verif_hooks")]
+                            crate::verif::yield_point("remove_value:map:write");
                             let mut db = self.map.write().unwrap();
                             db.remove(&key);
                         } else {
@@ -674,6 +688,8 @@ impl Database {
                         }
                     }
                 } // Release the lock
+                #[cfg(feature = "verif_hooks")]
+                crate::verif::yield_point("remove_value:watchers:write");
                 let mut watchers = self.watchers.map.write().unwrap();
                 match watchers.get_mut(&key) {
                     Some(senders) => {
@@ -695,6 +711,8 @@ impl Database {
     }
 
     pub fn get_value(&self, key: String) -> Option<Value> {
+        #[cfg(feature = "verif_hooks")]
+        crate::verif::yield_point("get_value:map:read");
         let db = self.map.read().unwrap();
         if let Some(value) = db.get(&key.to_string()) {
             Some(Value {
@@ -720,6 +738,8 @@ impl Database {
         key_disk_addr: u64,
         opp_id: u64,
     ) {
+        #[cfg(feature = "verif_hooks")]
+        crate::verif::yield_point("set_value_version:map:write");
         {
             let mut db = self.map.write().unwrap();
             db.insert(
@@ -737,6 +757,8 @@ impl Database {
     }
 
     pub fn watch_key(&self, key: &String, sender: &Sender<String>) -> Response {
+        #[cfg(feature = "verif_hooks")]
+        crate::verif::yield_point("watch_key:watchers:write");
         let mut watchers = self.watchers.map.write().unwrap();
         let mut senders: Vec<Sender<String>> = match watchers.get(key) {
             Some(watchers_vec) => watchers_vec.clone(),
